@@ -1148,7 +1148,25 @@ def gen_cases(rng, tier, ctx):
         r = rng.random()
         style = 'exact' if r < 0.55 else 'float' if r < 0.9 else 'mixed'
         cases.append(gen_template_case(rng, tier, style, rng.choice([1, 2, 2, 3, 3, maxd])))
-    return cases
+    return cases + twins_of(cases)
+
+
+def twins_of(cases):
+    """every input inside the class of a known finding once more as a correspondence-only case (CTwin: check_spec = true,
+    check_corr = the operational model, which describes the finding exactly, predicts the observation).  The symbolic
+    value is compared too, except for near-integer inputs of templates with a for-loop (the code writes the iteration
+    count in the floor form, the model in the ceiling form; they differ off the integers)"""
+    out = []
+    for c in cases:
+        fc = finding_class(c)
+        if fc is None:
+            continue
+        t = copy.deepcopy(c)
+        t.pop('mc', None)
+        t['twin'] = fc
+        t['twin_sym'] = not (fc == 'C04-near-integer' and 'for' in kinds_of(c['tpl'], set()))
+        out.append(t)
+    return out
 
 
 # ---------------------------------------------------------------------------------------------------------------------
@@ -1654,7 +1672,8 @@ def to_coq(case, obs):
     else:
         prog = '(IProg %s %s %s)' % (gQ(F(pr['loop'])), 'None' if pr['wf'] is None else '(Some %s)' % gQ(F(pr['wf'])),
                                      gQ(F(pr['pieces'])))
-    return '(CTpl %s %s %s %s)' % (g_pt(c04_spec.root_tpl(case), ids, all_channel_names(case)), env, sym, prog)
+    head = 'CTwin %s' % vlib.gbool(bool(case.get('twin_sym'))) if case.get('twin') else 'CTpl'
+    return '(%s %s %s %s %s)' % (head, g_pt(c04_spec.root_tpl(case), ids, all_channel_names(case)), env, sym, prog)
 
 
 # ---------------------------------------------------------------------------------------------------------------------
@@ -1673,6 +1692,7 @@ def histogram_keys(case, obs):
     keys = ['tpl', 'style:' + case['style'], 'depth:%d' % depth_of(case['tpl'])]
     keys += ['family:' + case['family']] if case.get('family') else []
     keys += ['extra:' + x for x in ('rootmap', 'cpmap', 'volatile', 'mc', 'alias', 'parch') if case.get(x)]
+    keys += ['twin:' + case['twin']] if case.get('twin') else []
     if '"meas"' in __import__('json').dumps(case['tpl']):
         keys.append('extra:measurements')
     keys += sorted({'ptype:' + p['ty'] for p in case['params'].values()})
@@ -1695,7 +1715,7 @@ FINDING_OF_REASON = {'neg_count': 'C04-neg-count', 'neg_duration': 'C04-neg-dura
 
 def py_spec(case, obs):
     """Python-side oracles: (a) make_compatible leaves the durations alone, (b) evaluate_in_scope is exact"""
-    if case.get('kind') != 'tpl':
+    if case.get('kind') != 'tpl' or case.get('twin'):
         return None
     return py_spec_mc(case, obs) or py_spec_num(case, obs)
 
@@ -1735,27 +1755,55 @@ def py_spec_num(case, obs):
     return None
 
 
-def classify(case, obs):
-    """Known-finding class of a case the specification rejects: the reason the template has no meaningful duration at
-    an input the implementation nevertheless accepted with contradicting numbers."""
-    if case.get('kind') != 'tpl' or 'prog' not in obs:
-        return None
-    pr = obs['prog']
-    if pr is not None and 'err' in pr:
+def finding_class(case):
+    """the known-finding class the INPUT belongs to (decided from the case alone, no observation), or None"""
+    if case.get('kind') != 'tpl':
         return None
     sp = c04_spec.spec(case)
-    if sp[0] == 'ok' and sp[3] and (pr is None or (F(pr['loop']) < sp[1] and F(pr['pieces']) == F(pr['loop'])
-                                                    and pr.get('wf') is not None and F(pr['wf']) == F(pr['loop']))) \
-            and (obs.get('sym') is None or F(obs['sym']) == sp[1]):
-        # an atomic template none of whose channels is played lasts > 0: the program is consistently shorter
-        return 'C04-all-channels-dropped'
-    if sp[0] == 'ok' and pr is not None and pr.get('wf', 0) is None and has_func_in_parallel(case['tpl']):
-        return 'C04-zero-length-function-leaf'
-    if sp[0] != 'undef':
+    if sp[0] == 'ok':
+        if sp[3]:
+            return 'C04-all-channels-dropped'
+        if sp[4] and has_func_in_parallel(case['tpl']):
+            return 'C04-zero-length-function-leaf'
         return None
     if sp[1] == 'non_integer' and not c04_spec.near_integer_input(case):
         return None
     return FINDING_OF_REASON.get(sp[1])
+
+
+def classify(case, obs):
+    """Known-finding class of a case the specification rejects: the reason the template has no meaningful duration at
+    an input the implementation nevertheless accepted with contradicting numbers.  For the two classes in which the
+    template HAS a duration the observation must be the one the finding describes (round 5); for the four classes
+    without a duration the finding's exact numbers are those of the operational model: every input of such a class is
+    emitted a second time as a correspondence-only twin (gen_cases / CTwin), so a different behaviour inside the class
+    breaks check_corr there."""
+    if case.get('kind') != 'tpl' or 'prog' not in obs or case.get('twin'):
+        return None
+    pr = obs['prog']
+    if pr is not None and 'err' in pr:
+        return None
+    fc = finding_class(case)
+    if fc == 'C04-all-channels-dropped':
+        # an atomic template none of whose channels is played lasts > 0: the program is consistently shorter, by exactly
+        # the not-played atoms; the duration expression keeps the full value
+        sp = c04_spec.spec(case)
+        played = c04_spec.spec(case, played_only=True)
+        if played[0] != 'ok':
+            return None
+        got = [F(0)] * 3 if pr is None else [F(pr['loop']), None if pr.get('wf') is None else F(pr['wf']), F(pr['pieces'])]
+        if got == [played[1]] * 3 and played[1] < sp[1] and (pr is None) == (played[1] == 0) \
+                and (obs.get('sym') is None or F(obs['sym']) == sp[1]):
+            return fc
+        return None
+    if fc == 'C04-zero-length-function-leaf':
+        # to_waveform raises; template, Loop.duration and the pieces still agree
+        sp = c04_spec.spec(case)
+        if pr is not None and pr.get('wf', 0) is None and F(pr['loop']) == sp[1] and F(pr['pieces']) == sp[1] \
+                and (obs.get('sym') is None or F(obs['sym']) == sp[1]):
+            return fc
+        return None
+    return fc
 
 
 def index_captured(t, names=frozenset()):
